@@ -62,6 +62,14 @@ func (e ExitReason) GetHostCallID() uint8 {
 	return uint8(e)
 }
 
+// GetHostCallIndex returns the full host-call identifier ν_X of an ecalli exit.
+// The immediate is at most four bytes, sign-extended to 64 bits; its low 32 bits
+// are kept in the exit reason (the top byte holds the reason type) and
+// re-extended here, so identifiers such as 256 or 2^64-1 do not alias 0..255.
+func (e ExitReason) GetHostCallIndex() uint64 {
+	return uint64(int64(int32(uint32(e))))
+}
+
 func (e ExitReason) GetPageFaultAddress() uint32 {
 	return uint32(e)
 }
